@@ -35,6 +35,13 @@ ENGINE = "M (MIR -> SMT, z3): the decision evaluation closure over oracle regist
 
 def run(check, mirror, tier):
     rb = replay_build(mirror)
+    run_parallel(check, build_jobs(check, mirror, tier, rb))
+
+
+def build_jobs(check, mirror, tier, rb, oid="decision_closure", lock_models=None, post_hook=None, replay_override=None, me_value=None):
+    """the decision evaluation closure obligation; with `lock_models` (C20) the registry accessors of ModelEvaluator are executed from
+    their own MIR over those RwLock models instead of being replaced, `me_value(ex, st)` builds the ModelEvaluator struct and
+    `post_hook(ex, o, v)` contributes further post-conditions"""
     crate = MirCrate(mirror, ["model-evaluator", "feel"], overflow_checks=True, enum_crates=("common", "feel", "model"))
     U = fv.Universe(mirror)
     NUM = U.idx("Number")
@@ -64,6 +71,7 @@ def run(check, mirror, tier):
             inputs["input%d_supplied" % k] = supplied_present[k]
 
         def logic(ex, st, argv):
+            st.log.append(("logic_scope_cell", argv[0].cell if isinstance(argv[0], Ref) else None))
             sc = deref(ex, st, argv[0])
             vec = sc.fields[0]
             depth = ex.concrete(vec.len)
@@ -85,9 +93,10 @@ def run(check, mirror, tier):
         if sorted(caps) != sorted(vals):
             raise MirUnsupported("the decision closure captures %s, the obligation knows %s" % (caps, sorted(vals)))
         env = Ref(ex.new_cell(st, Adt("closure", "build_decision_evaluator", [vals[c] for c in caps]), "env"))
-        me = Ref(ex.new_cell(st, Opaque("ModelEvaluator"), "me"))
+        me = Ref(ex.new_cell(st, me_value(ex, st) if me_value else Opaque("ModelEvaluator"), "me"))
         output = Ref(ex.new_cell(st, Adt("struct", "FeelContext", (fv.MapV(z3.IntVal(0), (), "kv"),)), "output"))
         inputs["_output"] = output
+        inputs["_cells_before"] = frozenset(st.cells)
 
         def set_entry(ex, st, ctx, name_rank, value):
             for o in ex.run("FeelContext::set_entry", [ctx, Ref(ex.new_cell(st, Opaque("Name", z3.IntVal(name_rank)), "name")), value], st):
@@ -124,8 +133,9 @@ def run(check, mirror, tier):
             res = En("Value", z3.IntVal(U.idx("Irrelevant")), {"Irrelevant": ()})
             st.log.append(("coerced", deref(ex, st, args[0]), deref(ex, st, args[1]), res))
             yield st, res
-        models = [(re.compile(r"^ModelEvaluator::(business_knowledge_model_evaluator|decision_service_evaluator|decision_evaluator|input_data_evaluator|item_definition_evaluator)$"), m_registry),
-                  (re.compile(r"^<std::sync::RwLockReadGuard<'_, .*> as Deref>::deref$"), m_guard_deref),
+        models = ([(re.compile(r"^ModelEvaluator::(business_knowledge_model_evaluator|decision_service_evaluator|decision_evaluator|input_data_evaluator|item_definition_evaluator)$"), m_registry)]
+                  if lock_models is None else list(lock_models)) + [
+                  (re.compile(r"^<std::sync::RwLock(Read|Write)Guard<'_, .*> as Deref(Mut)?>::deref(_mut)?$"), m_guard_deref),
                   (re.compile(r"^(builders::decision::)?DecisionEvaluator::evaluate$"), m_decision_evaluate),
                   (re.compile(r"^(builders::business_knowledge_model::)?BusinessKnowledgeModelEvaluator::evaluate$"), m_bkm_evaluate),
                   (re.compile(r"^(builders::decision_service::)?DecisionServiceEvaluator::evaluate_as_function_definition$"), m_ds_as_function),
@@ -183,6 +193,8 @@ def run(check, mirror, tier):
             props.append(("the stored result is the logic's value coerced to the declared output type", z3.BoolVal(False)))
         props.append(("reach:full", z3.BoolVal(len(rd) == ND and len(ri) == ND and len(rk) == 1)))
         props.append(("reach:leaf", z3.BoolVal(len(rd) == 0 and len(ri) == 0 and len(rk) == 0)))
+        if post_hook is not None:
+            props += post_hook(ex, o, v)
         return props
 
     def desc(m, v):
@@ -224,11 +236,10 @@ def run(check, mirror, tier):
             notes.append("%s -> %s (specified %s)" % ("typed string" if tref else "untyped", out[6:90], exp))
         return bad, "decision over %d decisions, %d inputs, %d knowledge models, logic %s on %s: %s" % (nd, ni, nk, logic, ctx, "; ".join(notes))
 
-    jobs = [lambda c: decide(c, crate, "decision_closure", setup, post, replay, rb, unwind=24, describe=desc, max_cex=6, budget_s=900,
+    return [lambda c: decide(c, crate, oid, setup, post, replay_override or replay, rb, unwind=24, describe=desc, max_cex=6, budget_s=900,
                              models=[(re.compile(r"^format$|^std::fmt::format$|^alloc::fmt::format$"), m_format_stub),
                                      (re.compile(r"^<std::slice::Iter<'_, .*> as Iterator>::for_each::<.*>$"), m_for_each)] + SCOPE_MODELS + fv.VALUE_MODELS,
                              need_reach=["reach:full", "reach:leaf"], known_predicates=KNOWN_PRED)]
-    run_parallel(check, jobs)
 
 
 KNOWN_PRED = {}
